@@ -641,7 +641,8 @@ def c10a_clone_from_clears(prog):
         for d_el in yielded(p, 'iter_mut', p_self):
             n_dst += 1
             cons = [e for e in p.calls(lambda e: e['name'] == 'contains' and 'HashSet' in e['path']) if ident_of(p, S(e['vals'][1])) == d_el]
-            cds = p.calls(lambda e: e['name'] == 'clear_detached' and S(e['vals'][0]) == d_el)
+            # the table-only clear of an archetype (no allocator involved), whatever it is called
+            cds = p.calls(lambda e: e['name'] in ('clear_detached', 'clear') and e['path'].startswith('archetype::Archetype') and len(e['vals']) == 1 and S(e['vals'][0]) == d_el)
             if not cons:
                 once('clear-guard', None, 'clear_detached must be applied exactly to archetypes that are NOT an image of a source archetype (no membership test found)')
                 continue
